@@ -3,6 +3,18 @@
 import json
 props=[json.loads(l) for l in open('/verif/properties.jsonl')]
 CLAIMED = {
+ 'C05': ("an independent reference checker (the rules of the statement) agrees with types.Check on acceptance and inferred type for 62 one-step programs (every node kind, well and ill typed) over the type catalogue, children of equal types with permuted fields, and four registration orders of extra mono/poly overloads",
+         "one node over identifier children (compositionality assumed for nesting); ⊥-typed arguments against non-variable positions not dictated; catalogue TC1/TC2"),
+ 'C06': ("25 programs with effect-recording and failing host functions in every operand position of if / ?: / && / || / a user lazy function / nested lazy calls / strict calls, method calls, literals, subscripts and dynamic calls: on every back end the recorded invocation sequence equals the dictated one for both values of every condition; guarded partial operations never fail for any operand",
+         "nesting depth <= 2; dynamic calls of lazy function values are covered under C03"),
+ 'C07': ("through the public facade: compile probe(x) against {x: T, y: num}; run on environments mutated by seven selectors (same type, permuted fields at every depth, other catalogue type, missing name, extra names, wrong type for an unused name): accepted iff every compile-time name is bound to an equal type; rejection returns an error and evaluates nothing",
+         "raw *val.Env / *types.Env environments only; host data through conv (reflect) not covered"),
+ 'C10': ("every sugar form nested in every operand position of every node kind (11 kernels x 20 contexts, with and without redundant parentheses): the desugared tree is exactly the call tree a reference desugarer gives, contains only core forms, is a fixed point, and the original is untouched; sugared programs and their explicit AST twins have equal types and values (or fail alike) on all back ends",
+         "depth <= 2 nesting; semantic half over the operand-level program table"),
+ 'C16': ("every built-in program with one operand made optional is rejected at compile time unless the reference rules put that operand in a type-variable position; ten accepted programs over optionals nested in lists, maps and objects never fail for present/absent payloads on all back ends; get(optional, default) is payload-or-default for every double",
+         "host nil pointers/slices/maps through conv not covered (no reflect model)"),
+ 'C17': ("Equals coincides with structural identity, is reflexive, symmetric (all pairs) and transitive (all triples) over types of depth <= 1 with two shared type variables and both field orders; a successful Unify makes both sides equal under its substitution and passes the occurs check; pattern vs variable-free type unifies iff a reference matcher finds an instantiation",
+         "depth 1 in the quick tier (418k pairs/triples), depth 2 in the thorough tier; tuples only outermost; ⊥ only in the equality law"),
  'C01': ("one inductive step per node kind (list/map/object literals, member, subscript, polymorphic and dynamic calls, ==, string, union) over children of every catalogue type and of equal types with permuted fields: every back end's result is well typed at the inferred type, components included, and no variant access is mis-typed (the engine checks every unsafe variant cast); field selection through every container and call form returns the field of that name for all four field-order combinations of static types and run-time values",
          "catalogue TC1 (14 types; 26 in the thorough tier), container sizes <= 1, numbers from a concrete pool in the structural step; the lifting from one step to all programs assumes the compositionality of Check/compile"),
  'C08': ("two- and three-operator inputs over user operators whose binding powers are symbolic float32 values (solver chooses orderings, fractional gaps, powers below 1) and whose fixity is any of left/right/non-associative/prefix/postfix parse to the tree the declarations dictate; a non-associative operator never chains in four contexts; 28 documented built-in forms parse as documented, 20 malformed inputs are rejected with a syntax error; every node's span re-parses to that node",
